@@ -19,6 +19,8 @@ import (
 )
 
 // Choice kinds (PointRec.Kind).
+const fairLimit = 400
+
 const (
 	KSched  = "sched"  // which enabled thread runs
 	KSelect = "select" // which ready select case
@@ -42,6 +44,9 @@ type Thread struct {
 	exited  chan struct{}
 	// Daemon threads do not keep an execution alive and are not reported as leaked.
 	Daemon bool
+	// Flags are thread attributes inherited by spawned threads (used to give the two ends of a
+	// transfer different "process-wide" settings inside one process).
+	Flags map[string]bool
 }
 
 type timer struct {
@@ -79,6 +84,14 @@ type Sched struct {
 	aborting      bool
 	enBuf         []*Thread
 	nextID        int
+	evaluating    bool
+	settleCond    func() bool
+	settleSince   int
+	settleExtra   int
+	consec        int
+	lastPicked    *Thread
+	Spinning      bool // WaitSettled was released by its step budget, not by quiescence
+	spawnFlags    map[string]bool
 	quiesceWaiter *Thread
 	quiescent     bool
 	nDone         int
@@ -126,7 +139,8 @@ func Cur() *Thread {
 // the scheduler picks it while the operation is enabled.
 func Point(kind string, obj uintptr, enabled func() bool) {
 	s := G
-	if s == nil || s.aborting {
+	if s == nil || s.aborting || s.evaluating {
+		// (evaluating: a driver predicate or oracle is reading product state through a shim)
 		return
 	}
 	t := s.cur
@@ -134,6 +148,68 @@ func Point(kind string, obj uintptr, enabled func() bool) {
 	t.hasPend = true
 	s.reschedule(t)
 	t.hasPend = false
+}
+
+// Flag reports a thread attribute of the running thread.
+func Flag(name string) bool {
+	s := G
+	if s == nil || s.cur == nil {
+		return false
+	}
+	return s.cur.Flags[name]
+}
+
+// SetFlag sets a thread attribute on the running thread (copy on write: threads spawned earlier
+// keep what they inherited).
+func SetFlag(name string, v bool) {
+	s := G
+	if s == nil || s.cur == nil {
+		return
+	}
+	m := map[string]bool{}
+	for k, x := range s.cur.Flags {
+		m[k] = x
+	}
+	m[name] = v
+	s.cur.Flags = m
+}
+
+// CurFlags returns the running thread's attributes (for deferred spawns such as AfterFunc).
+func CurFlags() map[string]bool {
+	if G == nil || G.cur == nil {
+		return nil
+	}
+	return G.cur.Flags
+}
+
+// GoWithFlags starts a thread with the given attributes instead of the spawner's.
+func GoWithFlags(label string, flags map[string]bool, f func()) *Thread {
+	s := G
+	if s == nil {
+		go f()
+		return nil
+	}
+	if flags == nil {
+		flags = map[string]bool{}
+	}
+	s.spawnFlags = flags
+	t := Go(label, f)
+	s.spawnFlags = nil
+	return t
+}
+
+// Peek runs f with scheduling points disabled, so that driver code can read product state through
+// the shims (atomic loads, ...) without creating choice points.
+func Peek(f func()) {
+	s := G
+	if s == nil {
+		f()
+		return
+	}
+	old := s.evaluating
+	s.evaluating = true
+	defer func() { s.evaluating = old }()
+	f()
 }
 
 // Blocked reports whether thread t is parked on an operation that is not enabled right now.
@@ -156,6 +232,23 @@ func WaitQuiescent() {
 	Point("quiesce", 0, func() bool { return s.quiescent })
 	s.quiesceWaiter = nil
 	s.quiescent = false
+}
+
+// WaitSettled parks the driver until the system is quiescent, or until cond has held for extra
+// scheduler steps (something keeps running: a spin or polling loop). Reports whether it was quiescent.
+func WaitSettled(cond func() bool, extra int) bool {
+	s := G
+	if s == nil || s.aborting {
+		return true
+	}
+	s.settleCond, s.settleSince, s.settleExtra = cond, -1, extra
+	s.quiesceWaiter = s.cur
+	s.quiescent = false
+	s.Spinning = false
+	Point("settle", 0, func() bool { return s.quiescent })
+	s.quiesceWaiter, s.settleCond = nil, nil
+	s.quiescent = false
+	return !s.Spinning
 }
 
 // Yield is a plain scheduling point that is always enabled.
@@ -209,6 +302,8 @@ func (s *Sched) threadExit(t *Thread) {
 
 func (s *Sched) enabledSet(self *Thread) []*Thread {
 	en := s.enBuf[:0]
+	s.evaluating = true
+	defer func() { s.evaluating = false }()
 	if self != nil && !self.done && self.hasPend && self.pending.enabled() {
 		en = append(en, self)
 	}
@@ -254,6 +349,35 @@ func (s *Sched) pick(self *Thread) *Thread {
 			}
 			continue
 		}
+		// release a driver waiting in WaitSettled once its condition has held for the step budget
+		if w := s.quiesceWaiter; w != nil && s.settleCond != nil && !s.quiescent {
+			if s.settleSince < 0 {
+				s.evaluating = true
+				if s.settleCond() {
+					s.settleSince = s.Steps
+				}
+				s.evaluating = false
+			} else if s.Steps-s.settleSince >= s.settleExtra {
+				s.quiescent = true
+				s.Spinning = true
+				s.Steps++
+				return w
+			}
+		}
+		// fairness: a thread that keeps running while others are runnable (a spin loop, a polling
+		// loop) is moved behind them after fairLimit consecutive steps; deterministic, so replay holds
+		if self != nil && en[0] == self && s.consec >= fairLimit {
+			s.consec = 0
+			if s.pendingTimers() {
+				// time passes while a thread spins: let the earliest timer fire
+				s.advanceClock()
+				continue
+			}
+			if len(en) > 1 {
+				copy(en, en[1:])
+				en[len(en)-1] = self
+			}
+		}
 		n := len(en)
 		clockAt := -1
 		if s.cfg.ClockChoice && s.pendingTimers() {
@@ -267,6 +391,12 @@ func (s *Sched) pick(self *Thread) *Thread {
 			continue
 		}
 		t := en[c]
+		if t == s.lastPicked {
+			s.consec++
+		} else {
+			s.consec = 0
+			s.lastPicked = t
+		}
 		s.Steps++
 		if !s.cfg.NoRecord {
 			s.fingerprint(t)
@@ -314,6 +444,8 @@ func Choose(kind string, n int) int {
 }
 
 func (s *Sched) fingerprint(next *Thread) {
+	s.evaluating = true
+	defer func() { s.evaluating = false }()
 	const prime = 1099511628211
 	h := uint64(14695981039346656037)
 	mix := func(x uint64) { h ^= x; h *= prime }
@@ -410,6 +542,11 @@ func Go(label string, f func()) *Thread {
 	}
 	t := &Thread{ID: s.nextID, Label: label, wake: make(chan struct{}, 1), exited: make(chan struct{})}
 	s.nextID++
+	if s.spawnFlags != nil {
+		t.Flags = s.spawnFlags
+	} else if s.cur != nil {
+		t.Flags = s.cur.Flags
+	}
 	t.pending = op{"start", 0, always}
 	t.hasPend = true
 	s.threads = append(s.threads, t)
